@@ -8,7 +8,9 @@
 package store
 
 import (
+	"bufio"
 	"context"
+	"os/exec"
 	"database/sql"
 	"encoding/json"
 	"errors"
@@ -44,6 +46,7 @@ type Ev struct {
 }
 
 type Op struct {
+	Busy  bool   `json:"busy"` // a read cursor is held open on the store's connection pool while the operation runs
 	Op    string `json:"op"` // process | reorg | restart
 	Num   uint64 `json:"num"`
 	Evs   []Ev   `json:"evs"`
@@ -382,6 +385,11 @@ type kindDriver interface {
 	// realStmt maps a model statement number of this block to a real statement index.
 	realStmt(op Op, at int, rng *rand.Rand) int
 	dbPath() string
+	pool() *sql.DB
+	prepare(op Op)
+	kindSeed() int64
+	setSeed(int64)
+	workDir() string
 }
 
 type runner struct {
@@ -419,6 +427,20 @@ func (r *runner) runOne(idx int, b Behaviour, mk func(dir string, rng *rand.Rand
 	r.w.Emit(tr.M{"ev": "reset", "kind": b.Kind, "t": idx})
 	r.w.Emit(tr.M{"ev": "snap", "s": kd.snapshot()})
 	for _, op := range b.Ops {
+		// a query in flight in another goroutine: the operation cannot reuse the pool's first connection
+		var held *sql.Rows
+		if op.Busy && (op.Op == "process" || op.Op == "reorg") && op.Fault.Kind != "kill" {
+			if rows, err := kd.pool().Query(`SELECT 1 UNION ALL SELECT 2`); err == nil {
+				rows.Next()
+				held = rows
+			}
+		}
+		release := func() {
+			if held != nil {
+				held.Close()
+				held = nil
+			}
+		}
 		switch op.Op {
 		case "process":
 			ctx, cancel := context.WithCancel(context.Background())
@@ -436,6 +458,32 @@ func (r *runner) runOne(idx int, b Behaviour, mk func(dir string, rng *rand.Rand
 					cancel()
 					return err
 				}
+			case "kill":
+				// the process dies while statement k of the block's transaction is executing: the block is processed by a child
+				// process of this driver (same store file, same deterministic block) that is SIGKILLed inside that statement
+				cancel()
+				real = kd.realStmt(op, op.Fault.At, r.rng)
+				kd.close()
+				res, err := runChild(b.Kind, kd, op, real)
+				if err != nil {
+					return err
+				}
+				if err := inj.disarm(); err != nil { // the killed child could not disarm the trigger it armed
+					return fmt.Errorf("disarm: %w", err)
+				}
+				if err := kd.open(); err != nil {
+					return fmt.Errorf("reopen after kill: %w", err)
+				}
+				if res == "ok" {
+					kd.prepare(op)
+					kd.applied(op)
+				}
+				// the block was handled by a new process (nothing of the old one's memory, e.g. its halted flag, survives) that died
+				r.w.Emit(tr.M{"ev": "restart"})
+				r.w.Emit(tr.M{"ev": "process", "num": op.Num, "evs": kd.describe(op), "fault": "kill", "at": real, "res": res, "ms": 0})
+				r.w.Emit(tr.M{"ev": "restart"})
+				r.w.Emit(tr.M{"ev": "snap", "s": kd.snapshot()})
+				continue
 			case "commit":
 				if err := inj.armCommit(); err != nil {
 					cancel()
@@ -452,6 +500,7 @@ func (r *runner) runOne(idx int, b Behaviour, mk func(dir string, rng *rand.Rand
 			t0 := time.Now()
 			perr := kd.process(ctx, op)
 			cancel()
+			release()
 			if err := inj.disarm(); err != nil {
 				return fmt.Errorf("disarm: %w", err)
 			}
@@ -463,7 +512,7 @@ func (r *runner) runOne(idx int, b Behaviour, mk func(dir string, rng *rand.Rand
 				kd.applied(op)
 			}
 			ev := tr.M{"ev": "process", "num": op.Num, "evs": kd.describe(op), "fault": op.Fault.Kind, "at": real, "res": res,
-				"ms": time.Since(t0).Milliseconds()}
+				"ms": time.Since(t0).Milliseconds(), "busy": op.Busy}
 			if perr != nil {
 				ev["err"] = fmt.Sprintf("%.160s", perr.Error())
 			}
@@ -482,6 +531,7 @@ func (r *runner) runOne(idx int, b Behaviour, mk func(dir string, rng *rand.Rand
 				}
 			}
 			perr := kd.reorg(context.Background(), op.From)
+			release()
 			if err := inj.disarm(); err != nil {
 				return fmt.Errorf("disarm: %w", err)
 			}
@@ -537,4 +587,91 @@ func sortBy2(ms []tr.M, k1, k2 string) {
 		}
 		return asInt(ms[i][k2]) < asInt(ms[j][k2])
 	})
+}
+
+
+// ---------------------------------------------------------------------------------------------- process death
+
+type childJob struct {
+	Kind string `json:"kind"`
+	Seed int64  `json:"seed"`
+	Dir  string `json:"dir"`
+	Op   Op     `json:"op"`
+	At   int    `json:"at"`
+}
+
+// runChild re-executes this binary as a child that processes one block on the store's DB file with a slow trigger armed
+// at statement `at`, and kills it (SIGKILL) while that statement runs. Returns "err" if the child was killed (or failed),
+// "ok" if it managed to finish the block before the kill.
+func runChild(kind string, kd kindDriver, op Op, at int) (string, error) {
+	job, _ := json.Marshal(childJob{Kind: kind, Seed: kd.kindSeed(), Dir: kd.workDir(), Op: op, At: at})
+	cmd := exec.Command(os.Args[0], "-child", string(job))
+	out, err := cmd.StdoutPipe()
+	if err != nil {
+		return "", err
+	}
+	cmd.Stderr = os.Stderr
+	if err := cmd.Start(); err != nil {
+		return "", err
+	}
+	rd := bufio.NewReader(out)
+	line, _ := rd.ReadString('\n') // "GO": the child is about to call ProcessBlock
+	if !strings.HasPrefix(line, "GO") {
+		cmd.Process.Kill()
+		cmd.Wait()
+		return "", fmt.Errorf("child did not start: %q", line)
+	}
+	done := make(chan string, 1)
+	go func() { l, _ := rd.ReadString('\n'); done <- l }()
+	res := "err"
+	select {
+	case l := <-done: // finished before the kill (the armed statement does not exist in this block)
+		if strings.HasPrefix(l, "DONE ok") {
+			res = "ok"
+		}
+	case <-time.After(120 * time.Millisecond):
+		cmd.Process.Kill()
+	}
+	cmd.Wait()
+	return res, nil
+}
+
+// RunChild is the child side of runChild.
+func RunChild(jobJSON string) error {
+	var j childJob
+	if err := json.Unmarshal([]byte(jobJSON), &j); err != nil {
+		return err
+	}
+	rng := rand.New(rand.NewSource(1))
+	var kd kindDriver
+	switch j.Kind {
+	case "bridge":
+		kd = newBridgeKind(j.Dir, rng, Options{})
+	case "l1info":
+		kd = newL1Kind(j.Dir, rng, Options{})
+	case "ger":
+		kd = newGerKind(j.Dir, rng, Options{})
+	default:
+		return fmt.Errorf("kind %q", j.Kind)
+	}
+	kd.setSeed(j.Seed)
+	if err := kd.open(); err != nil {
+		return err
+	}
+	inj, err := newInjector(kd.dbPath())
+	if err != nil {
+		return err
+	}
+	if err := inj.arm(j.At, true); err != nil {
+		return err
+	}
+	fmt.Println("GO")
+	perr := kd.process(context.Background(), j.Op)
+	inj.disarm()
+	if perr == nil {
+		fmt.Println("DONE ok")
+	} else {
+		fmt.Println("DONE err")
+	}
+	return nil
 }
